@@ -6,7 +6,7 @@ import histprop
 
 PID = "C17"
 COQ_MODULE = "Prop_C17"
-THEOREMS = ['C17_every_history', 'C17_fmt_never_waits', 'C17_fmt_no_disturbance', 'C17_accessors_no_raw_ops']
+THEOREMS = ['C17_every_history', 'C17_fmt_never_waits', 'C17_fmt_no_disturbance', 'C17_accessors_no_raw_ops', 'C17_every_schedule_nonacquiring_never_waits']
 CASE_MODULES = ["Pf_Hist", "Monitors"]
 CHECK_WITHOUT_PROOF = True
 SHRINK_GUARD = 0      # which of the booleans evaluated with the verdict certifies the theorem's hypotheses
